@@ -1715,8 +1715,10 @@ def _format_t(path, root=T):
         if op == '.':
             prepr.append('.' + arg)
         elif op == '[':
-            if type(arg) is tuple:
+            if type(arg) is tuple and arg:
                 index = ", ".join([_format_slice(x) for x in arg])
+                if len(arg) == 1:
+                    index += ","  # T[x,] is not T[x]
             else:
                 index = _format_slice(arg)
             prepr.append(f"[{index}]")
